@@ -843,20 +843,18 @@ impl Check for C02 {
         "C02"
     }
     fn sweeps(&self, tier: Tier) -> Vec<Box<dyn Sweep>> {
-        let mut v: Vec<Box<dyn Sweep>> = vec![
+        vec![
             Box::new(Matrix),
             Box::new(Functions),
             Box::new(Literals { n: tier.pick(6, 7) }),
             Box::new(Prec { depth3: false, wide: false }),
             Box::new(Prec { depth3: true, wide: tier == Tier::Thorough }),
-        ];
-        v.truncate(5);
-        v
+        ]
     }
     fn meta(&self, tier: Tier) -> Meta {
         Meta {
             bound: format!(
-                "(1) 18 binary operators x all ordered pairs of 44 boundary values (12 Integer, 13 Single, 15 Double, 4 String) and unary -, +, NOT, through Operation::* (result variant compared exactly) and through PRINT with two type probes; (2) every ordered pair of the 20 operators (18 binary, unary -, NOT) in both tree shapes over all operand triples from {{7,2,3,0,-1,5}}, rendered with minimal and with full parentheses{}; (3) every literal spelling of length <={} over {{0 1 9 3 . E D + - ! # %}} that the manual's rules classify, plus radix literals, observed in Line::ast(); (4) 14 numeric functions x the 44 values; (5) assignment of the 44 values to A%, A!, A#, A$, A, B%(2), C#(1,1) with read-back type probes",
+                "(1) 18 binary operators x all ordered pairs of 48 boundary values (12 Integer, 13 Single, 19 Double incl. four within Single resolution of a whole number, 4 String) and unary -, +, NOT, through Operation::* (result variant compared exactly) and through PRINT with two type probes; (2) every ordered pair of the 20 operators (18 binary, unary -, NOT) in both tree shapes over all operand triples from {{7,2,3,0,-1,5}}, rendered with minimal and with full parentheses{}; (3) every literal spelling of length <={} over {{0 1 9 3 . E D + - ! # %}} that the manual's rules classify, plus radix literals and structured long spellings (1-9 mantissa digits x point position x 14 exponent spellings x suffix), observed in Line::ast(); (4) 14 numeric functions x the 48 values; (5) assignment of the 48 values to A%, A!, A#, A$, A, B%(2), C#(1,1) with read-back type probes",
                 if tier == Tier::Thorough { ", and every operator triple of the 18 binary operators in all five tree shapes over operands {7,2,3,0,-1}" } else { ", and every operator triple of the 18 binary operators in all five tree shapes over operands {7,2,3}" },
                 tier.pick(6, 7)
             ),
